@@ -58,9 +58,13 @@ def run_c14(chk):
     n = 120 if tier == "quick" else 2500
     # durations in weeks only: with `+Nm` the declared end would not move by the same number of weeks (outside the premise)
     knobs = [Knobs(p_tz=0.0, p_limits=0.6, p_tasklimits=0.2, big_effort=0.3, p_leave=0.5, p_gvac=0.4, p_month=0.0),
-             Knobs(p_tz=0.0, envelope="alap", p_limits=0.5, p_leave=0.5, p_month=0.0)]
+             Knobs(p_tz=0.0, envelope="alap", p_limits=0.5, p_leave=0.5, p_month=0.0),
+             # year ends (ISO year != calendar year on some days), always with company holidays, work that has to skip them
+             Knobs(p_tz=0.0, envelope="asap", p_gvac=1.0, p_leave=0.3, p_limits=0.2, big_effort=0.5, p_month=0.0, dur_weeks=[1, 2, 2],
+                   max_res=2, starts=[1734912000, 1735516800, 1766361600, 1766966400, 1797811200, 1798416000, 1608508800,
+                                      1609113600, 1829865600, 1546214400, 1577664000])]
     asts = [w for _, w in SC.witness_asts("C14")]
-    asts += [gen.gen_project(chk.rng, knobs[i % 2]) for i in range(n)]
+    asts += [gen.gen_project(chk.rng, knobs[i % 3]) for i in range(n)]
     weeks = [1, 4, 52, 53, 104, 261]
     base = project_stream.run_projects(chk, asts, want_oracles=())
     dis = [{"stream": "project", "text": r["text"], "ast": r["ast"], "diffs": r["diffs"][:6]} for r in base if r["diffs"] and not r["skipped"]]
@@ -99,7 +103,7 @@ def run_c14(chk):
             nontriv += 1
     chk.cov["evaluations"] += len(pairs)
     chk.cov["distinct_nontrivial"] = nontriv
-    chk.cov["rule"] = ("UTC projects (limits, leaves, holidays, ALAP and ASAP) scheduled by the real code at their own dates and with every "
+    chk.cov["rule"] = ("UTC projects (limits, leaves, holidays, ALAP and ASAP; a third of them starting in the last/first week of a year with company holidays) scheduled by the real code at their own dates and with every "
                        "date moved by k weeks, k in {1,4,52,53,104,261}, random 1..300 and negative; every start/end must move by exactly "
                        "604800*k s, flags and ledgers (per slot index) must be identical; base projects also compared with the Lean model; "
                        "non-trivial = distinct base projects with a scheduled task")
